@@ -193,13 +193,32 @@ impl Node {
 }
 
 fn draw_trailing(ctx: &mut Ctx) -> Vec<u8> {
-    let n = match ctx.ch.weighted("op.arg.trail", &[3, 2, 3]) {
+    let n = match ctx.ch.weighted("op.arg.trail", &[3, 2, 3, 1]) {
         0 => 0,
         1 => ctx.ch.range("op.arg.len", 1, 4) as usize,
-        _ => ctx.ch.range("op.arg.len", 5, 300) as usize,
+        2 => ctx.ch.range("op.arg.len", 5, 300) as usize,
+        _ => ctx.ch.range("op.arg.len", 1500, 5000) as usize,
     };
     let seed = ctx.ch.sub_seed("bytes.seed");
     crate::choice::expand_bytes(seed | 1, n)
+}
+
+/// An original-handshake peer echoes time and random data of our packet 1 but writes its own
+/// read clock ("time2") into bytes 4..8 of its packet 2 (RTMP 1.0 section 5.2.4); some peers
+/// echo the packet verbatim instead.  Both are conformant.
+fn with_time2(ctx: &mut Ctx, mut peer: RefPeer) -> RefPeer {
+    if peer.kind == PeerKind::Original {
+        peer.time2 = match ctx.ch.weighted("cfg.time2", &[2, 1, 2]) {
+            0 => None,
+            1 => Some([0, 0, 0, 0]),
+            _ => {
+                ctx.probe("c.original_peer_fills_time2");
+                let v = 1 + ctx.ch.draw("cfg.time2v", u32::MAX as u64) as u32;
+                Some(v.to_be_bytes())
+            }
+        };
+    }
+    peer
 }
 
 fn draw_peer_kind(ctx: &mut Ctx) -> PeerKind {
@@ -237,7 +256,7 @@ pub fn run_c05(ctx: &mut Ctx) -> RunResult {
             (
                 Node::Real(RealHs::new(Role::Client, tc, 1)),
                 Node::Ref(RefHs {
-                    peer: RefPeer::new(Role::Server, kind, seed),
+                    peer: with_time2(ctx, RefPeer::new(Role::Server, kind, seed)),
                     app_rx: Vec::new(),
                     trailing: ts,
                     trailing_sent: false,
@@ -255,7 +274,7 @@ pub fn run_c05(ctx: &mut Ctx) -> RunResult {
             let seed = ctx.ch.sub_seed("bytes.seed");
             (
                 Node::Ref(RefHs {
-                    peer: RefPeer::new(Role::Client, kind, seed),
+                    peer: with_time2(ctx, RefPeer::new(Role::Client, kind, seed)),
                     app_rx: Vec::new(),
                     trailing: tc,
                     trailing_sent: false,
